@@ -11,6 +11,7 @@ import json
 import sys
 import warnings
 
+import ser as ser_mod
 from ser import de_expr, exc_class, pop_num, ser_expr, var
 
 warnings.simplefilter("ignore")
@@ -75,10 +76,10 @@ def build(x):
             raise NotApplicable
         if op == "chain":
             # the ordering is given over the atom's own variable objects, arranged by the generated name order
-            pos = {f"V{n}": k for k, n in enumerate(x["ord"])}
+            pos = {ser_mod._name(n): k for k, n in enumerate(x["ord"])}
             used = {v.name for v in a.children + a.parents}
             # a global ordering: the atom's own variable objects plus the names that do not occur in it
-            extra = tuple(var(n) for n in x["ord"] if f"V{n}" not in used)
+            extra = tuple(var(n) for n in x["ord"] if ser_mod._name(n) not in used)
             order = sorted(a.children + a.parents + extra, key=lambda v: pos[v.name])
             return chain_expand(a, reorder=x["reorder"], ordering=order if x["reorder"] else None)
         return fraction_expand(a) if op == "fexp" else bayes_expand(a)
@@ -156,9 +157,24 @@ def main():
             def has_raw(t):
                 return isinstance(t, dict) and (t.get("op") in ("rmul", "rdiv") or any(has_raw(t.get(k)) for k in ("a", "b")))
             recs.append({"id": rid, "k": "pp", "a": pre, "out": out, "text": a.to_y0()[:300], "raw": has_raw(x)})
+            # the same round trip with the parser's indexed single-letter names (A_1, B_2, C_3, D4)
+            ser_mod.set_naming("indexed")
+            try:
+                a2 = build(x["a"])
+                obj2, out2 = out_of(lambda: build(x))
+                pre2 = ser(a2)
+                if obj2 is not None and "e" in out2:
+                    out2["same_obj"] = obj2 == a2
+                    out2["same_str"] = obj2.to_y0() == a2.to_y0()
+                recs.append({"id": rid + "#names", "k": "pp", "a": pre2, "out": out2, "text": a2.to_y0()[:300], "raw": has_raw(x)})
+            except NotApplicable:
+                pass
+            finally:
+                ser_mod.set_naming("V")
         else:
             recs.append({"id": rid, "k": "calc", "m": x, "out": out})
     json.dump({"recs": recs, "stats": stats}, open(sys.argv[2], "w"))
 
 
-main()
+if __name__ == "__main__":
+    main()
